@@ -614,8 +614,11 @@ class C15(Prop):
           'crash point has a proposal in flight and some has a reward; distinct by (algo, space, events).')
   trusted_base = [
       'random.Random bit streams (the oracle stream fed to the model is recorded from the real PRNG)',
-      'reproduction / population-update operations of Evolution are parameters of the model (tied only for '
-      'the deterministic operations of the harness; real operators run oracle-only)',
+      'reproduction / population-update operations of Evolution are parameters of the model: tied for the '
+      'deterministic operations of the harness and for the NSGA2 population update (non-dominated sort, '
+      'crowding distance, elites; PgModel/Nsga2.lean, objective values from {0,1,2} so that the float '
+      'arithmetic of the code is exact) with the mutator recorded as an oracle table; regularized_evolution, '
+      'hill_climb, NEAT (speciation lives in DNA.userdata and species representatives) run oracle-only',
       'pg.to_json_str / pg.from_json_str of the history (C05); DNA identity = index in spec.iter_dna() (C11)',
       'Deduping._cache is read directly (no public accessor for the de-duplication memory)',
       'modelled, not verified: the generator state machines of PgModel/Gen.lean (tied by correspondence at '
